@@ -62,6 +62,7 @@ structure Field where
   ty : Ty
   omitEmpty : Bool
   hidden : Bool
+  sameField : Bool       -- loaded into the Config field it is saved from (both evident)
   load : LoadKind
   save : SaveKind
   dflt : Const          -- value Default() gives the Config field (unknown if not evident)
